@@ -31,7 +31,7 @@ Record hcfg := mkH {
   fail_duration : Z;         (* Passive.FailDuration; 0 disables failure counting *)
   max_fails_raw : Z;         (* Passive.MaxFails as configured *)
   topo : list (list nat);    (* upstream -> its peers (indices into the global peer table) *)
-  max_conns : list Z         (* Upstream.MaxConnections after provision (unhealthy_connection_count copied in) *)
+  max_conns : list Z         (* Upstream.MaxConnections after provision: [effective_max_conns] of the configured values *)
 }.
 
 (* Provision: fail_duration > 0 and max_fails = 0 means max_fails = 1 *)
@@ -40,6 +40,11 @@ Definition max_fails (c : hcfg) : Z :=
   else if (0 <? fail_duration c) && (max_fails_raw c =? 0) then 1 else max_fails_raw c.
 
 Definition counting (c : hcfg) : bool := passive c && negb (fail_duration c =? 0).
+
+(* Upstream.provision: the passive unhealthy_connection_count is the default for upstreams without
+   max_connections of their own; neither fail_duration nor max_fails has a say in it *)
+Definition effective_max_conns (passive_on : bool) (unhealthy_conn_count raw : Z) : Z :=
+  if raw =? 0 then (if passive_on && (0 <? unhealthy_conn_count) then unhealthy_conn_count else 0) else raw.
 
 (* ---- events ---- *)
 
